@@ -197,6 +197,15 @@ func c16LeafCount(c *core.Ctx, n uint64, h uint, rng *rand.Rand, allPositions bo
 		if !eqU64(got, want) {
 			c.Violate("RootPositions", "geometry", "", fmt.Sprintf("%s totalRows=%d: got %v want %v", e, tot, got, want))
 		}
+		// the result is the caller's: writing to it must not change what the function says next
+		// (added after seeded change C16h, a memo that hands the same slice out again)
+		for i := range got {
+			got[i] = ^got[i]
+		}
+		c.Eval(1)
+		if again := u.RootPositions(n, uint8(tot)); !eqU64(again, want) {
+			c.Violate("RootPositions", "geometry", "after-the-caller-wrote-to-an-earlier-result", fmt.Sprintf("%s totalRows=%d: second call got %v want %v", e, tot, again, want))
+		}
 	}
 	check := func(ti int, row uint, o *big.Int) {
 		t := trees[ti]
